@@ -160,6 +160,12 @@ func c17(e *Env) {
 	}
 	w.RunUntil(func() bool { return false }, 100*time.Millisecond)
 	nFrames := 10 + c.Choose("nframes", 50)
+	type c17sent struct {
+		raw []byte
+		tok string
+		msg message.Message
+	}
+	lastSent := map[*world.Client]*c17sent{}
 	stream := int16(100)
 	mutated := 0
 	for i := 0; i < nFrames && !w.Stopped(); i++ {
@@ -184,6 +190,18 @@ func c17(e *Env) {
 		stream++
 		if stream > 30000 {
 			stream = 100
+		}
+		if prev := lastSent[h]; prev != nil && c.Choose("resend", 5) == 4 {
+			// the same frame once more (a driver that retries, a client stuck in a loop): what the
+			// first copy left behind in the proxy must not trip the second
+			raw := append([]byte(nil), prev.raw...)
+			if len(raw) > 3 {
+				raw[2], raw[3] = byte(stream>>8), byte(stream)
+			}
+			h.SendRaw(stream, "hostile", prev.tok, raw, prev.msg)
+			e.Res.Stats["probe.c17.frame_sent_again"]++
+			w.RunUntil(func() bool { return false }, time.Duration(c.Choose("pause", 300))*time.Millisecond)
+			continue
 		}
 		tok := w.NewToken()
 		hs := func() string { return hostileStrings[c.Choose("hstr", len(hostileStrings))] }
@@ -318,6 +336,7 @@ func c17(e *Env) {
 		}
 		mutated++
 		h.SendRaw(stream, "hostile", tok, raw, msg)
+		lastSent[h] = &c17sent{raw: append([]byte(nil), raw...), tok: tok, msg: msg}
 		// let things move; every few frames the clock moves too (heartbeats, reconnects)
 		w.RunUntil(func() bool { return false }, time.Duration(c.Choose("pause", 300))*time.Millisecond)
 		if c.Choose("evilhb", 10) == 9 {
